@@ -5,6 +5,7 @@ import (
 	"fmt"
 	"go/ast"
 	"go/types"
+	"math"
 	"reflect"
 	"sort"
 	"strconv"
@@ -280,6 +281,10 @@ func (d *Dumper) ValueLit(in any, optFns ...ValueLitOptFn) string {
 	case reflect.Float32:
 		return strconv.FormatFloat(rv.Float(), 'f', -1, 32)
 	case reflect.Float64:
+		// without fraction 'f' gives an integer literal, huge ones overflow as constant
+		if f := rv.Float(); math.Abs(f) >= 1e21 {
+			return strconv.FormatFloat(f, 'g', -1, 64)
+		}
 		return strconv.FormatFloat(rv.Float(), 'f', -1, 64)
 	case reflect.String:
 		return strconv.Quote(rv.String())
